@@ -26,7 +26,7 @@ from yv.report import Report, finish  # noqa: E402
 DEPS = {
     "C01": ["C14", "C13"], "C02": ["C14", "C01"], "C03": ["C01", "C04", "C13", "C14"], "C04": ["C14"], "C05": ["C14", "C04", "C13"],
     "C06": ["C14"], "C07": ["C14", "C13"], "C08": ["C07", "C04", "C13"], "C09": ["C14", "C13"], "C10": ["C13"], "C11": ["C10", "C12"],
-    "C12": [], "C13": [], "C14": [], "C15": ["C04", "C14"], "C16": ["C14"], "C17": ["C14", "C13"], "C18": ["C14"], "C19": ["C14", "C13"], "C20": ["C14"],
+    "C12": ["C13"], "C13": [], "C14": [], "C15": ["C04", "C14"], "C16": ["C14", "C13"], "C17": ["C14", "C13"], "C18": ["C14", "C13"], "C19": ["C14", "C13"], "C20": ["C14"],
 }
 
 
@@ -157,7 +157,14 @@ def inherit_dependencies(pid: str, model, rep: Report) -> None:
 
     own = {o.key for o in rep.obligations}
     n_dep = 0
-    for dep in DEPS.get(pid, []):
+    closure: list = []
+    todo = list(DEPS.get(pid, []))
+    while todo:  # what a dependency rests on, this property rests on
+        d_ = todo.pop(0)
+        if d_ != pid and d_ not in closure:
+            closure.append(d_)
+            todo.extend(DEPS.get(d_, []))
+    for dep in closure:
         sub = Report(pid, "thorough")
         importlib.import_module(f"yv.rules.{dep.lower()}").run(model, sub, "quick")
         for ob in sub.obligations:
@@ -172,7 +179,7 @@ def inherit_dependencies(pid: str, model, rep: Report) -> None:
         for e in sub.errors:
             rep.error(f"[{dep}] {e}")
     rep.stats["inherited_obligations"] = n_dep
-    rep.stats["inherited_from"] = DEPS.get(pid, [])
+    rep.stats["inherited_from"] = closure
 
 
 def thorough(pid: str, model, rep: Report, args) -> None:
